@@ -469,7 +469,8 @@ Definition topo_agree (case : topo_case) : bool :=
   Bool.eqb f (negb (tmodel_eqb {| t_main := main; t_funcs := funcs; t_subs := subs |}
                                {| t_main := smain; t_funcs := sfuncs; t_subs := ssubs |})).
 
-(* ---- AddInitializersToInputsPass / RemoveInitializersFromInputsPass, per graph (inputs, initializers) *)
+(* ---- AddInitializersToInputsPass / RemoveInitializersFromInputsPass; a model is the list model.graphs()
+   (main graph first) of (inputs, initializers); add_inits / rm_inits are the per-graph loop bodies *)
 Definition add_inits (g : list positive * list positive) : (list positive * list positive) * nat :=
   let '(ins, inits) := g in
   let extra := filter (fun v => negb (pmem v ins)) inits in
@@ -484,10 +485,20 @@ Definition io_pass (step : list positive * list positive -> (list positive * lis
            (m : list (list positive * list positive)) : list (list positive * list positive) * bool :=
   (map (fun g => fst (step g)) m, negb (Nat.eqb (fold_left Nat.add (map (fun g => snd (step g)) m) O) O)).
 
+(* AddInitializersToInputsPass since fix d64e021: only model.graph (the head of the list returned by
+   model.graphs()) is processed; subgraphs keep the inputs their operator defines.
+   RemoveInitializersFromInputsPass still processes every graph (io_pass rm_inits). *)
+Definition add_pass (m : list (list positive * list positive)) : list (list positive * list positive) * bool :=
+  match m with
+  | [] => ([], false)
+  | g :: rest => (fst (add_inits g) :: rest, negb (Nat.eqb (snd (add_inits g)) O))
+  end.
+Definition rm_pass := io_pass rm_inits.
+
 Definition io_eqb (a b : list positive * list positive) : bool :=
   list_eqb Pos.eqb (fst a) (fst b) && list_eqb Pos.eqb (snd a) (snd b).
 
 Definition io_agree (case : bool * list (list positive * list positive) * (list (list positive * list positive) * bool)) : bool :=
   let '(is_add, m, (m', f)) := case in
-  let '(pm, pf) := io_pass (if is_add then add_inits else rm_inits) m in
+  let '(pm, pf) := if is_add then add_pass m else rm_pass m in
   list_eqb io_eqb pm m' && Bool.eqb pf f.
